@@ -435,7 +435,13 @@ pub fn t3_unpack(ctx: &Ctx) {
         return;
     }
     for (n, want) in &expect_files {
-        let got = std::fs::read(dir.join(n)).unwrap_or_default();
+        let got = match std::fs::read(dir.join(n)) {
+            Ok(g) => g,
+            Err(_) => {
+                ctx.violation(format!("{P}/unpack-file-missing"), format!("e57-unpack did not write {n} ({} bytes returned by the library) ({what})", want.len()));
+                return;
+            }
+        };
         if got != *want {
             let pos = got.iter().zip(want.iter()).position(|(a, b)| a != b);
             ctx.violation(
